@@ -694,6 +694,30 @@ pub fn run(tier: Tier) -> i32 {
     for (i, v) in r.found {
         rep.violation("tokens", v, J::obj().set("kind", J::s("token-shape")).set("case_index", J::i(i as u64)));
     }
+    // (4b) tokens built by the library's own generator, also from address lists that repeat an address
+    {
+        let a = |i: usize| addr(i, i % 2 == 1);
+        let mut lists: Vec<Vec<SocketAddr>> = shapes.iter().step_by(3).cloned().collect();
+        lists.extend([vec![a(0), a(0)], vec![a(0), a(0), a(1)], vec![a(0), a(1), a(0)], vec![a(0), a(1), a(1), a(2)], vec![a(1), a(0), a(1), a(0), a(2)], vec![a(3); 32], (0..32).map(|i| a(i / 2)).collect()]);
+        let r = explore::sweep(lists.len() * 3, |i| {
+            let l = &lists[i / 3];
+            // (the generator adds the lifetime to the current time: 1000 s + (u64::MAX - 1000) is the largest it can represent)
+            let (expire, timeout) = [(30u64, 15i32), (u64::MAX - 1000, -1), (1, 1)][i % 3];
+            let key = [7u8; 32];
+            let t = crate::link::guard("ConnectToken::generate", || ConnectToken::generate(std::time::Duration::from_secs(1000), 0x1122_3344_5566_7788, expire, 42 + i as u64, timeout, l.clone(), None, &key));
+            let v = match t {
+                // the argument domain of the generator is not the subject of any statement: only tokens it returns are judged
+                Err(_) => None,
+                Ok(Err(_)) => None,
+                Ok(Ok(t)) => token_roundtrip(&t).map(|v| Violation::new(v.signature, format!("token generated for the address list {:?}: {}", l, v.message))),
+            };
+            (h64(&(l.len(), i % 3)), v)
+        });
+        rep.add_sweep("generated-tokens", r.cases, r.distinct_outcomes, lists.len() as u64, vec![format!("ConnectToken::generate over {} address lists (incl. repeated addresses) x 3 (expiry, time-out) settings: write/read round trip", lists.len())]);
+        for (i, v) in r.found {
+            rep.violation("generated-tokens", v, J::obj().set("kind", J::s("generated-token")).set("case_index", J::i(i as u64)));
+        }
+    }
     let mut tmuts: Vec<Vec<u8>> = vec![];
     for sh in [&shapes[0], &shapes[9], &shapes[29]] {
         let mut b = vec![];
